@@ -91,7 +91,7 @@ func (g *Gen) PutSpec() *PutSpec {
 		p.HasTags = true
 		p.Tags = g.KVs([]string{"t1", "t2", "env"}, 2)
 		for i := range p.Tags {
-			p.Tags[i].V = g.pick([]string{"v", "w", "prod"})
+			p.Tags[i].V = g.pick([]string{"v", "w", "prod", "a b", "x+y@z.org", "p:q/r=s_t-u"})
 		}
 		if len(p.Tags) == 0 {
 			p.HasTags = false
@@ -210,6 +210,7 @@ func (g *Gen) Op() *Op {
 	case n < 88:
 		o.Kind = "copyObject"
 		o.SB, o.SK = g.pick(g.Buckets), g.pick(g.Keys)
+		o.SrcOver = g.R.Chance(25)
 		if g.R.Chance(40) {
 			o.Put = g.PutSpec()
 			o.Put.Data = nil
